@@ -32,6 +32,9 @@ def run(args):
             rep.ok()
     tot = rr.counts["deref"] + rr.counts["exits"] + rr.counts["forwards"] + rr.counts["noalias"] + rr.counts["reads"]
     rep.ok(max(0, tot - n_bad))
+    from . import rules_poly
+    n_poly = rules_poly.check_jacobians(rep, "C05")
+    rep.floor("poly_jacobian_cells", n_poly, 800)
     from . import rules_jet
     nfj, noj = rules_jet.check(rep, "C05", {("manif::SE2TangentBase", "exp"), ("manif::SO3TangentBase", "exp"), ("manif::SO3Base", "log")}, obs="outputs")
     rep.floor("jet_switch_functions", nfj, 3)
@@ -52,11 +55,12 @@ def run(args):
         "R-GUARD: every *J / J-> / J.value() is dominated by a test that J is engaged",
         "R-BLOCK: constant block / corner / coefficient accesses on Jacobian outputs lie inside the output's static extent",
         "R-NOALIAS: operands of A.noalias() = E living in the same matrix as A are disjoint from A",
+        "C05.f R-POLY.jac (exact): for SO2, SE2, SO3, SE3, SE_2_3, SGal3, Rn the analytic Jacobians of inverse, compose (both) and act (both), evaluated over the polynomial ring, equal cell by cell the derivatives that follow from the matrix realisation and the hat/vee tables: J[inverse] = -Adj(X), J[compose]_X = Adj(Y^-1), J[compose]_Y = I, J[act]_X e_i = (T(X) E_i [p;e])[:Dim], J[act]_p = T(X)[:Dim,:Dim] - these operations' Jacobians ARE the true derivative",
         "C05.e R-JET: the Jacobian entries written on both sides of a small-angle switch (SE2Tangent::exp, SO3Tangent::exp, SO3::log) meet within 1e-7 (double) / 1e-3 (float) at the switch-over and have no negative-order term",
         "forwarding an optional (or a block of it) to a callee counts as the callee's proven write-set (modular summaries; *_impl helpers are summarised into their callers)",
     ]
     rep.units = rr.tags
     rep.trusted = ["clang 14 AST / template instantiation / integer constant folding", "Eigen block API semantics for the ~25 accessor names in engine/rules_out.py", "tl::optional"]
-    rep.assumptions = ["NOT decided: that the closed forms written into the outputs are the true derivative (numerical); Taylor/closed-form agreement is R-JET's clause"]
+    rep.assumptions = ["NOT decided: that the transcendental closed forms (Jacobians of exp and log: rjac, rjacinv and the chain rules built from them) are the true derivative away from the switch-over; rounding behaviour"]
     rep.checker_cmd = "manif-sa plugin (mode=funcs) + engine/rules_out.py abstract interpreter"
     return rep.finish()
